@@ -778,16 +778,20 @@ def replay(ctx, data):
     return 0 if ok else 1
 
 
-LEVEL_TEXT = ("Proof (Coq): html_to_nodes returns exactly one raw node with the (GFM-filtered) input whenever no extension is on, "
-              "the stripped tree is empty or some top-level element is not img / div.admonition, and never takes the "
-              "parse-failure branch (C17_passthrough); the character-level model of RE_FLOW.subn leaves no '<' or '</' followed "
-              "case-insensitively by a disallowed tag name and a delimiter, and changes nothing but such '<' into '&lt;' "
-              "(C17_gfm_filter_neutralises); the directive handed over for an <img> is ('image', src, one option line per "
-              "recognised attribute in key order) and every option line is read back by the modelled option scanner as the "
-              "attribute value, for every value (C17_img_equiv, C17_option_value_carried). Regex structure, key sets and "
-              "f-string templates are regenerated from html_to_nodes.py on every run; the decision logic is tied to the code by "
-              "differential correspondence with the real html.parser events.")
+LEVEL_TEXT = ("Proof (Coq, 12 theorems): html_to_nodes returns exactly one raw node with the (GFM-filtered) input whenever no "
+              "extension is on, the stripped tree is empty or some top-level element is not img / div.admonition, never takes the "
+              "parse-failure branch (C17_passthrough) and never lets an exception escape (C17_no_escape); the character-level model "
+              "of RE_FLOW.subn leaves no '<' or '</' followed ASCII-case-insensitively by a disallowed tag name and a delimiter, "
+              "changes nothing but such '<' into '&lt;', is undone by un-filtering, and its case folding is pinned letter by letter "
+              "(C17_gfm_filter_neutralises, C17_gfm_unfilter, C17_gfm_casefold); an <img> hands ('image', src, one option line per "
+              "recognised attribute) to run_directive and a <div class=admonition> hands the title / option lines / flattened body "
+              "of the Markdown spelling (C17_img_equiv, C17_admonition_directive, C17_admonition_equiv, C17_option_keys); the "
+              "strip-':' step yields the YAML block (C17_option_block_extracted) and the modelled option reader returns every "
+              "attribute value unchanged (C17_option_values_carried; C17_unquoted_value_refuted for the pre-fix code). Regex "
+              "structure, key sets and f-string templates are regenerated from html_to_nodes.py on every run; the decision logic "
+              "is tied to the code by differential correspondence with the real html.parser events.")
 LEVEL_NOTE = ("Trusted: Coq kernel; hand transcription of html_to_nodes into coq/Html/HtmlToNodes.v (correspondence); html.parser, "
               "markdown-it and the docutils directive classes as oracles; equality of the resulting docutils nodes with those of "
               "the directive spelling is checked by the metamorphic search on the implementation, not proved (the directive "
-              "classes are not modelled); div.admonition title/body construction is modelled and checked by correspondence only.")
+              "classes are not modelled); the rstrip() of the admonition option block when its last value is empty is covered by "
+              "correspondence only.")
